@@ -469,6 +469,36 @@ func checkCallbackContext(e *Env, f *ssa.Function) {
 		for _, ref := range core.Referrers(p) {
 			c, ok := ref.(*ssa.Call)
 			if ok && c.Call.Value != p {
+				// handed to a caller-holds-lock helper that is analysed as part of this operation: the lock set at the helper's own
+				// call of the callback (lock sets flow through such helpers) is what counts
+				if h := core.StaticFn(c); h != nil && core.IsAbsorbed(h) {
+					idx := -1
+					for k, a := range c.Call.Args {
+						if a == ssa.Value(p) {
+							idx = k
+						}
+					}
+					if idx >= 0 && idx < len(h.Params) {
+						for _, r2 := range core.Referrers(h.Params[idx]) {
+							c2, isC2 := r2.(*ssa.Call)
+							if !isC2 || c2.Call.Value != ssa.Value(h.Params[idx]) {
+								continue
+							}
+							n++
+							held := la.At(c2)
+							hh, isHeld := held[core.AccessPath(f.Params[0])+".mutex"]
+							switch want {
+							case "w":
+								e.R.Check(isHeld && hh.Write, rule, construct, e.pos(c2), "invoked under the write lock (in "+core.FnName(h)+")", "documented to run under the write lock but held="+held.String())
+							case "r", "any":
+								e.R.Check(isHeld, rule, construct, e.pos(c2), "invoked under the lock "+held.String(), "documented to run under the lock but held="+held.String())
+							case "none":
+								e.R.Check(!isHeld, rule, construct, e.pos(c2), "invoked with the lock released (the callback may re-enter the map)", "Range's callback is invoked with the map lock held: re-entering callbacks (cache sweep) would self-deadlock; held="+held.String())
+							}
+						}
+						continue
+					}
+				}
 				// the callback is handed on to another operation: it then runs in THAT operation's lock context
 				callee := core.CalleeName(c)
 				got, known := callbackLock[callee]
@@ -640,45 +670,35 @@ func compareStyle(inner *ssa.Function, stale *ssa.Parameter) string {
 func checkExpiryPredicate(e *Env) { checkExpiryPredicateAs(e, "C14.R5") }
 
 func checkExpiryPredicateAs(e *Env, rule string) {
-	// (a) Element.IsExpired
+	// (a) Element.IsExpired: truth table over {no deadline set, now is after the deadline}
 	if f := e.fn(rule, "pkg/cache.Element.IsExpired"); f != nil && len(f.Params) == 2 {
 		now := f.Params[1]
-		okAll := true
-		why := ""
-		for _, ret := range core.ReturnsOf(f) {
-			v := core.RetVal(ret, 0)
-			if b, isC := core.ConstBool(v); isC {
-				// constant false only under IsZero() of the deadline
-				_, g := core.GuardedBy(ret, func(cond ssa.Value) core.CondMatch {
-					if _, ok := core.CondCall(cond, "time.Time.IsZero"); ok {
-						return core.CondMatch{Match: true, Branch: true}
-					}
-					return core.CondMatch{}
-				})
-				if b || !g {
-					okAll, why = false, "constant result not of the form `deadline.IsZero() ⇒ false`"
-				}
-				continue
-			}
+		bf := &core.BoolFn{Fn: f, AtomOf: func(v ssa.Value) (string, bool, bool) {
 			c, isCall := v.(*ssa.Call)
 			if !isCall {
-				okAll, why = false, "result is not a time comparison"
-				continue
+				return "", false, false
 			}
 			n := core.CalleeName(c)
-			a0, a1 := derefParamOrLoad(core.Arg(c, 0)), derefParamOrLoad(core.Arg(c, 1))
-			nowFirst := a0 == ssa.Value(now)
-			nowSecond := a1 == ssa.Value(now)
-			switch {
-			case n == "time.Time.After" && nowFirst && isDeadlineLoad(a1):
-			case n == "time.Time.Before" && nowSecond && isDeadlineLoad(a0):
-			default:
-				okAll, why = false, "expired must be now.After(deadline) (or deadline.Before(now)); found "+n
+			switch n {
+			case "time.Time.IsZero":
+				if isDeadlineLoad(derefParamOrLoad(core.Arg(c, 0))) {
+					return "no-deadline", false, true
+				}
+			case "time.Time.After", "time.Time.Before":
+				a0, a1 := derefParamOrLoad(core.Arg(c, 0)), derefParamOrLoad(core.Arg(c, 1))
+				if (n == "time.Time.After" && a0 == ssa.Value(now) && isDeadlineLoad(a1)) || (n == "time.Time.Before" && a1 == ssa.Value(now) && isDeadlineLoad(a0)) {
+					return "deadline-passed", false, true
+				}
 			}
-		}
-		e.R.Check(okAll, rule, "pkg/cache.Element.IsExpired:predicate", e.fpos(f), "returns false when no deadline is set, else now.After(deadline)", why)
+			return "", false, false
+		}}
+		checkTruth(e, rule, "pkg/cache.Element.IsExpired:predicate", bf,
+			func(r core.BoolRow) bool { return len(r.Rets) == 1 && r.Rets[0] == 1 },
+			func(a map[string]bool) bool { return !a["no-deadline"] && a["deadline-passed"] },
+			"expired ⇔ a deadline is set ∧ now.After(deadline)", "the expiry predicate is not `deadline set and now after it`")
 	}
-	// (b) Cache.LoadOrStore: the entry is replaced only if absent or expired
+	// (b) Cache.LoadOrStore: the entry is replaced only if absent or expired – truth table of the replace callback over
+	// {key present, element found is expired}; the result is WHICH element the callback hands back
 	if f := e.fn(rule, "pkg/cache.Cache.LoadOrStore"); f != nil {
 		done := false
 		for _, c := range core.CallsNamed(f, "pkg/sync.Map.ReplaceWithFunc") {
@@ -688,84 +708,58 @@ func checkExpiryPredicateAs(e *Env, rule string) {
 			}
 			done = true
 			oldV, oldLoaded := inner.Params[0], inner.Params[1]
-			// a result assigned to a variable in the branches and returned once: follow the variable along the path
-			var track []ssa.Value
-			for _, ret := range core.ReturnsOf(inner) {
-				if ld, isLd := core.RetVal(ret, 0).(*ssa.UnOp); isLd && ld.Op == token.MUL {
-					track = append(track, ld.X)
+			asksOther := false
+			bf := &core.BoolFn{Fn: inner, AtomOf: func(v ssa.Value) (string, bool, bool) {
+				if v == ssa.Value(oldLoaded) {
+					return "present", false, true
+				}
+				if ic, ok := core.CondCall(v, "pkg/cache.Element.IsExpired"); ok {
+					if core.Resolve(core.Unwrap(core.Arg(ic, 0))) == ssa.Value(oldV) {
+						return "found-is-expired", false, true
+					}
+					asksOther = true
+				}
+				return "", false, false
+			}}
+			rows, err := bf.Table()
+			badKeep, badReplace, und := "", "", ""
+			if err != nil {
+				und = err.Error()
+			}
+			for _, r := range rows {
+				if r.Unknown != "" {
+					und = r.Unknown
+					continue
+				}
+				if len(r.RetVals) != 2 {
+					und = "callback does not return (element, delete)"
+					continue
+				}
+				keeps := core.Resolve(r.RetVals[0]) == ssa.Value(oldV)
+				del := r.Rets[1] != 0
+				live := r.Assign["present"] && !r.Assign["found-is-expired"]
+				if live && (!keeps || del) {
+					badKeep = "for [" + core.AssignString(r.Assign) + "] the callback does not hand back (the element found, false)"
+				}
+				if r.Assign["present"] && r.Assign["found-is-expired"] && (keeps || del) {
+					badReplace = "for [" + core.AssignString(r.Assign) + "] the expired element is kept (or the key deleted) instead of being replaced"
+				}
+				if !r.Assign["present"] && del {
+					badReplace = "for an absent key the callback asks for deletion"
 				}
 			}
-			var q, q2 *core.PathQuery
-			retOnPath := func(pq *core.PathQuery, ret *ssa.Return) ssa.Value {
-				v := core.RetVal(ret, 0)
-				if ld, isLd := v.(*ssa.UnOp); isLd && ld.Op == token.MUL {
-					if tv := pq.Tracked(ld.X); tv != nil {
-						return core.Resolve(tv)
-					}
-				}
-				return v
+			if und != "" {
+				e.R.Undecided(rule, "pkg/cache.Cache.LoadOrStore:keeps-live-entry", e.pos(c.(ssa.Instruction)), und)
+				continue
 			}
-			q = &core.PathQuery{Fn: inner, Track: track,
-				Target: func(in ssa.Instruction) bool {
-					ret, ok := in.(*ssa.Return)
-					if !ok {
-						return false
-					}
-					if retOnPath(q, ret) != ssa.Value(oldV) {
-						return true
-					}
-					b, isC := core.ConstBool(core.RetVal(ret, 1))
-					return !isC || b
-				},
-				EdgeOK: core.ForcedEdges(func(i *ssa.If) int {
-					cond, neg := core.StripNot(i.Cond)
-					s := 0
-					if cond == ssa.Value(oldLoaded) {
-						s = 1
-					} else if _, ok := core.CondCall(cond, "pkg/cache.Element.IsExpired"); ok {
-						s = -1
-					}
-					if neg {
-						s = -s
-					}
-					return s
-				})}
-			w := q.Find()
-			e.R.Check(w == nil, rule, "pkg/cache.Cache.LoadOrStore:keeps-live-entry", e.pos(c.(ssa.Instruction)),
-				"with the key present and not expired every return of the callback is (oldValue, false)", "a present, non-expired entry can be replaced or deleted: "+e.trace(w))
-			// … and with the key present but EXPIRED the new element replaces it (the slot is fresh again)
-			q2 = &core.PathQuery{Fn: inner, Track: track,
-				Target: func(in ssa.Instruction) bool {
-					ret, ok := in.(*ssa.Return)
-					if !ok {
-						return false
-					}
-					return retOnPath(q2, ret) == ssa.Value(oldV) // keeps the expired element
-				},
-				EdgeOK: core.ForcedEdges(func(i *ssa.If) int {
-					cond, neg := core.StripNot(i.Cond)
-					s := 0
-					if cond == ssa.Value(oldLoaded) {
-						s = 1
-					} else if _, ok := core.CondCall(cond, "pkg/cache.Element.IsExpired"); ok {
-						s = 1
-					}
-					if neg {
-						s = -s
-					}
-					return s
-				})}
-			w2 := q2.Find()
-			e.R.Check(w2 == nil, rule, "pkg/cache.Cache.LoadOrStore:replaces-expired-entry", e.pos(c.(ssa.Instruction)),
-				"with the key present but expired the callback stores the new element", "an expired entry is kept instead of being replaced: the key never becomes fresh again until a sweep runs: "+e.trace(w2))
-			// the expiry test must be on the old value with a time obtained before (not a constant)
-			isC := core.CallsNamed(inner, "pkg/cache.Element.IsExpired")
-			nIs := len(isC)
+			e.R.Check(badKeep == "", rule, "pkg/cache.Cache.LoadOrStore:keeps-live-entry", e.pos(c.(ssa.Instruction)),
+				"with the key present and not expired the callback hands back (oldValue, false)", "a present, non-expired entry can be replaced or deleted: "+badKeep)
+			e.R.Check(badReplace == "", rule, "pkg/cache.Cache.LoadOrStore:replaces-expired-entry", e.pos(c.(ssa.Instruction)),
+				"with the key present but expired the callback stores the new element", "an expired entry is kept instead of being replaced: the key never becomes fresh again until a sweep runs: "+badReplace)
+			nIs := len(core.CallsNamed(inner, "pkg/cache.Element.IsExpired"))
 			whyIs := "the callback never consults IsExpired"
-			for _, ic := range isC {
-				if core.Resolve(core.Unwrap(core.Arg(ic, 0))) != ssa.Value(oldV) {
-					nIs, whyIs = 0, "IsExpired is asked of something other than the element found in the map (the new element is never expired yet): a stale entry is returned as loaded although Load hides it"
-				}
+			if asksOther {
+				nIs, whyIs = 0, "IsExpired is asked of something other than the element found in the map (the new element is never expired yet): a stale entry is returned as loaded although Load hides it"
 			}
 			e.R.Check(nIs >= 1, rule, "pkg/cache.Cache.LoadOrStore:tests-expiry", e.pos(c.(ssa.Instruction)), "expiry of the old value is consulted", whyIs)
 		}
